@@ -12,8 +12,8 @@ end session
 
 namespace Skel
 def CleanupStale : List String := ["mu.Lock", "IsStale", "unindexLocked", "delete", "mu.Unlock", "closeFn", "stream.Close"]
-def CloseConnection : List String := ["connLock.Lock", "delete", "connLock.Unlock", "Stream.Close", "RawConn.Close", "RemoveControlConnection", "RemoveTunnelConnection"]
-def CreateConnection : List String := ["connLock.Lock", "connLock.Unlock", "connLock.Unlock"]
+def CloseConnection : List String := ["connLock.Lock", "delete", "connLock.Unlock", "Stream.Close", "RawConn.Close", "streamMgr.RemoveStream", "RemoveControlConnection", "RemoveTunnelConnection"]
+def CreateConnection : List String := ["streamMgr.CreateStream", "connLock.Lock", "connLock.Unlock", "connLock.Unlock"]
 def DropStaleIndex : List String := ["mu.Lock", "mu.Unlock", "delete"]
 def GetByClientID : List String := ["mu.RLock", "mu.RUnlock"]
 def KickOldConnection : List String := ["mu.Lock", "unindexLocked", "delete", "mu.Unlock", "sendKickFn", "stream.Close"]
@@ -37,7 +37,7 @@ end Skel
 
 namespace Guard
 def CleanupStale : List String := ["range r.connMap", "if conn.IsStale(timeout)", "if len(staleInfos) == 0", "range staleInfos", "if closeFn != nil", "if err := closeFn(info.connID, info.clientID, info.authenticated); err != nil", "if info.stream != nil"]
-def CloseConnection : List String := ["if exists", "if conn != nil", "if conn.Stream != nil", "if conn.RawConn != nil", "if s.connStateStore != nil", "if err := s.connStateStore.UnregisterConnection(s.Ctx(), connectionId); err != nil"]
+def CloseConnection : List String := ["if exists", "if conn != nil", "if conn.Stream != nil", "if conn.RawConn != nil", "if s.streamMgr != nil", "if s.connStateStore != nil", "if err := s.connStateStore.UnregisterConnection(s.Ctx(), connectionId); err != nil"]
 def DropStaleIndex : List String := ["if conn == nil", "range r.clientIDMap", "if indexed == conn && clientID != conn.ClientID"]
 def KickOldConnection : List String := ["if oldConn != nil && oldConn.ConnID != newConnID", "if connInfo != nil", "if sendKickFn != nil && oldConnForCallback != nil", "if connInfo.stream != nil"]
 def Register : List String := ["if conn == nil", "if conn.ConnID == \"\"", "if r.maxConnections > 0 && len(r.connMap) >= r.maxConnections", "if oldestConn != nil", "if existing, exists := r.connMap[conn.ConnID]; exists", "if conn.Authenticated && conn.ClientID > 0"]
